@@ -880,10 +880,12 @@ retry:
 	} else {
 		_, exists := p.playerNames[lowerName]
 		if exists {
+			p.muP.Unlock()
 			return false
 		}
 		_, exists = p.playerIDs[player.ID()]
 		if exists {
+			p.muP.Unlock()
 			return false
 		}
 	}
@@ -896,10 +898,18 @@ retry:
 
 // unregisters a connected player
 func (p *Proxy) unregisterConnection(player *connectedPlayer) (found bool) {
+	lowerName := strings.ToLower(player.Username())
 	p.muP.Lock()
-	_, found = p.playerIDs[player.ID()]
-	delete(p.playerNames, strings.ToLower(player.Username()))
-	delete(p.playerIDs, player.ID())
+	// Only remove the entries that belong to this very player: the connection of a
+	// rejected duplicate (or of a login that never got registered) must not evict
+	// the registered player that holds the same name and/or id.
+	if p.playerIDs[player.ID()] == player {
+		delete(p.playerIDs, player.ID())
+		found = true
+	}
+	if p.playerNames[lowerName] == player {
+		delete(p.playerNames, lowerName)
+	}
 	empty := len(p.playerIDs) == 0
 	p.muP.Unlock()
 	if empty {
